@@ -139,6 +139,23 @@ impl SessionEngine {
         input: String,
         continuity: Option<ContinuityRunLink>,
         openresponses_override: Option<OpenResponsesConfig>,
+    ) -> bool {
+        // One run per session stream, whichever route starts it (a thread message's run is also
+        // reachable as /sessions/{id}).
+        if !handle.claim_start() {
+            return false;
+        }
+        self.spawn_claimed_session(handle, input, continuity, openresponses_override);
+        true
+    }
+
+    /// Starts the run of a handle whose start the caller has already claimed.
+    pub(crate) fn spawn_claimed_session(
+        &self,
+        handle: SessionHandle,
+        input: String,
+        continuity: Option<ContinuityRunLink>,
+        openresponses_override: Option<OpenResponsesConfig>,
     ) {
         let openresponses = openresponses_override.or_else(|| self.openresponses.clone());
         let session = run_session(SessionContext {
